@@ -14,67 +14,141 @@ from ..util import callee_attr, calls_in_node, cfg_nodes_with_call, lexical_lock
 GB = "gateway_base"
 
 
+PRIM_READS = ("_read", "recv", "read", "recv_into")
+
+
 def check_exact_read(repo: Repo, ob: Obligation, fi: FuncInfo) -> None:
-    """accumulate-until-n loop: returns only when len(buf) >= n, requests at most
-    n - len(buf), appends in order, EOFError on an empty chunk."""
+    """IO.read(n) must return exactly n bytes or raise EOFError.
+
+    Recognised accumulation idioms (anything else is an analysis error, not a violation):
+      I1  buf = b"" | <first read>;  while len(buf) < n: ...;  buf += chunk;  return buf
+      I2  chunks = []; missing = n;  while missing > 0: ...; chunks.append(chunk); missing -= len(chunk);
+          return b"".join(chunks)
+    Semantic obligations decided per low-level read call r:
+      size     the request is at most the bytes still missing (REMAINING, min(REMAINING, k), or n while nothing was read yet)
+      eof      r's result is tested for emptiness and an empty result raises EOFError *before* it is accumulated
+      order    the result is appended at the end of what was accumulated so far
+    and for the function: the loop runs until nothing is missing, no early exit, the accumulated bytes are returned."""
     params = [p for p in fi.params() if p != "self"]
     ob.require(len(params) == 1, f"{fi.short}: one size parameter expected")
     n = params[0]
     loops = [x for x in repo.own_nodes(fi) if isinstance(x, ast.While)]
-    ob.site(fi, loops[0] if loops else fi.node, "exact-read loop", size_param=n)
+    reads = [c for c in repo.calls_in(fi) if callee_attr(c) in PRIM_READS and isinstance(c.func, ast.Attribute) and not unparse(c.func).startswith(("struct.", "os."))]
+    ob.site(fi, loops[0] if loops else fi.node, "exact-read loop", size_param=n, low_level_reads=len(reads))
+    if not reads:
+        raise AnalysisError(f"{fi.short}: no low-level read call recognised")
     if len(loops) != 1:
         ob.violation(fi, fi.node, "IO.read is not a read-until-n loop: a short low-level read would truncate or split a frame", construct="no accumulate loop")
         return
     lp = loops[0]
     t = lp.test
-    buf = None
+    # -- which idiom
+    buf = missing = chunks = None
     if isinstance(t, ast.Compare) and len(t.ops) == 1:
         l, r, op = unparse(t.left), unparse(t.comparators[0]), t.ops[0]
         if l.startswith("len(") and r == n and isinstance(op, ast.Lt):
             buf = l[4:-1]
         elif r.startswith("len(") and l == n and isinstance(op, ast.Gt):
             buf = r[4:-1]
-    if buf is None:
-        ob.violation(fi, lp, f"loop condition `{norm(t)}` is not `len(buf) < {n}`: the read may return early or over-read")
-        return
-    # buffer initialised empty
-    inits = [x for x in fi.node.body if isinstance(x, ast.Assign) and unparse(x.targets[0]) == buf]
-    if not inits or repo.fold_in(inits[0].value, fi) not in (b"", ""):
-        ob.violation(fi, inits[0] if inits else fi.node, "accumulation buffer is not initialised empty")
-    # one primitive read per iteration requesting n - len(buf)
-    reads = [c for s in lp.body for c in ast.walk(s) if isinstance(c, ast.Call) and callee_attr(c) in ("_read", "recv", "read")]
-    if len(reads) != 1:
-        ob.violation(fi, lp, "not exactly one low-level read per iteration")
-        return
-    rd = reads[0]
-    want = f"{n} - len({buf})"
-    if len(rd.args) != 1 or unparse(rd.args[0]) != want:
-        ob.violation(fi, rd, f"the low-level read requests `{norm(rd.args[0]) if rd.args else ''}` instead of `{want}`: bytes of the next frame could be consumed")
-    asg = repo.parent(rd)
-    if not (isinstance(asg, ast.Assign) and isinstance(asg.targets[0], ast.Name)):
-        ob.violation(fi, rd, "chunk is not bound to a local")
-        return
-    chunk = asg.targets[0].id
-    # empty chunk -> EOFError
-    eof = [s for s in lp.body if isinstance(s, ast.If) and unparse(s.test) == f"not {chunk}" and s.body and isinstance(s.body[-1], ast.Raise)
-           and unparse(s.body[-1].exc).split("(")[0] == "EOFError"]
-    if not eof:
-        ob.violation(fi, lp, "an empty chunk (peer closed) does not raise EOFError: the loop would spin or return short data")
-    # append order
-    app = [s for s in lp.body if (isinstance(s, ast.AugAssign) and isinstance(s.op, ast.Add) and unparse(s.target) == buf and unparse(s.value) == chunk)
-           or (isinstance(s, ast.Assign) and unparse(s.targets[0]) == buf and unparse(s.value) == f"{buf} + {chunk}")]
-    if len(app) != 1:
-        ob.violation(fi, lp, f"chunks are not appended in arrival order (`{buf} += {chunk}`)")
-    elif eof and lp.body.index(eof[0]) > lp.body.index(app[0]):
-        pass
-    # return the buffer after the loop only
+        elif isinstance(op, ast.Gt) and repo.fold_in(t.comparators[0], fi) == 0 and isinstance(t.left, ast.Name):
+            missing = l
+        elif isinstance(op, (ast.Lt, ast.LtE, ast.NotEq, ast.GtE, ast.Gt, ast.Eq)) and (l.startswith("len(") or r.startswith("len(")):
+            ob.violation(fi, lp, f"loop condition `{norm(t)}` does not run until exactly {n} bytes are accumulated: the read may return early or over-read")
+            return
+    elif isinstance(t, ast.Name):
+        missing = t.id
+    if buf is None and missing is None:
+        raise AnalysisError(f"{fi.short}: accumulate loop condition `{norm(t)}` not recognised")
+    body_nodes = [x for s_ in lp.body for x in ast.walk(s_)]
+    if missing is not None:
+        init = [x for x in fi.node.body if isinstance(x, (ast.Assign, ast.AnnAssign)) and unparse(x.targets[0] if isinstance(x, ast.Assign) else x.target) == missing]
+        if not init or unparse(init[0].value) != n:
+            ob.violation(fi, init[0] if init else lp, f"the missing-byte counter is not initialised with {n}")
+        decs = [x for x in body_nodes if isinstance(x, ast.AugAssign) and unparse(x.target) == missing]
+        apps = [x for x in body_nodes if isinstance(x, ast.Call) and callee_attr(x) == "append"]
+        if len(apps) != 1 or len(decs) != 1:
+            raise AnalysisError(f"{fi.short}: chunk-list idiom without exactly one append / one counter update")
+        chunks = unparse(apps[0].func.value)
+        cv = unparse(apps[0].args[0])
+        if not (isinstance(decs[0].op, ast.Sub) and unparse(decs[0].value) == f"len({cv})"):
+            ob.violation(fi, decs[0], f"the missing-byte counter is not decreased by the length of the chunk just read (`{norm(decs[0])}`)")
+        remaining = {missing}
+    else:
+        remaining = {f"{n} - len({buf})"}
+        inits = [x for x in fi.node.body if isinstance(x, (ast.Assign, ast.AnnAssign)) and unparse(x.targets[0] if isinstance(x, ast.Assign) else x.target) == buf]
+        if not inits:
+            ob.violation(fi, fi.node, "accumulation buffer is never initialised")
+        elif repo.fold_in(inits[0].value, fi) not in (b"", "") and not (isinstance(inits[0].value, ast.Call) and inits[0].value in reads):
+            ob.violation(fi, inits[0], "accumulation buffer is initialised with something else than empty bytes or a first read")
+
+    def size_ok(c: ast.Call, first: bool) -> bool:
+        if len(c.args) != 1:
+            return False
+        a = c.args[0]
+        txt = unparse(a)
+        if txt in remaining:
+            return True
+        if first and txt == n:
+            return True  # nothing read yet: everything is missing
+        if isinstance(a, ast.Call) and isinstance(a.func, ast.Name) and a.func.id == "min" and any(unparse(x) in remaining or (first and unparse(x) == n) for x in a.args):
+            return True
+        return False
+
+    for rd in reads:
+        in_loop = any(x is rd for x in body_nodes)
+        first = not in_loop and rd.lineno < lp.lineno
+        if not in_loop and not first:
+            ob.violation(fi, rd, "a low-level read after the accumulate loop")
+            continue
+        if not size_ok(rd, first):
+            ob.violation(fi, rd, f"the low-level read requests `{norm(rd.args[0]) if rd.args else ''}`, which can exceed the bytes still missing "
+                                 f"({' / '.join(sorted(remaining))}): bytes of the next frame are consumed and the stream is misaligned")
+        # eof test before accumulation
+        par = repo.parent(rd)
+        var = None
+        if isinstance(par, ast.Assign) and isinstance(par.targets[0], ast.Name) and par.value is rd:
+            var = par.targets[0].id
+        elif isinstance(par, ast.AnnAssign) and isinstance(par.target, ast.Name) and par.value is rd:
+            var = par.target.id
+        if var is None:
+            ob.violation(fi, rd, "the result of a low-level read is accumulated without being tested for emptiness: when the peer closes mid-frame the loop spins "
+                                 "forever on b'' instead of raising EOFError")
+            continue
+        scope = lp.body if in_loop else fi.node.body
+        idx = next((k for k, s_ in enumerate(scope) if any(x is rd for x in ast.walk(s_))), None)
+        eof = None
+        for s_ in scope[idx + 1:]:
+            if isinstance(s_, ast.If) and s_.body and isinstance(s_.body[-1], ast.Raise) and unparse(s_.body[-1].exc).split("(")[0] == "EOFError":
+                tt = unparse(s_.test)
+                if tt == f"not {var}" or tt.startswith(f"not {var} and") or tt == f"len({var}) == 0":
+                    eof = s_
+                    break
+            if any(isinstance(x, (ast.AugAssign, ast.Call)) and var in unparse(x) and (isinstance(x, ast.AugAssign) or callee_attr(x) == "append") for x in ast.walk(s_)):
+                break  # accumulated before any test
+        if eof is None:
+            ob.violation(fi, rd, f"an empty chunk (peer closed) read into `{var}` does not raise EOFError before it is accumulated")
+        # append order
+        if buf is not None and var != buf:
+            app = [x for x in (body_nodes if in_loop else ast.walk(fi.node)) if (isinstance(x, ast.AugAssign) and isinstance(x.op, ast.Add) and unparse(x.target) == buf and unparse(x.value) == var)
+                   or (isinstance(x, ast.Assign) and unparse(x.targets[0]) == buf and unparse(x.value) == f"{buf} + {var}")]
+            if len(app) != 1:
+                ob.violation(fi, rd, f"chunks are not appended in arrival order (`{buf} += {var}`)")
+        if chunks is not None:
+            if not any(isinstance(x, ast.Call) and callee_attr(x) == "append" and unparse(x.func.value) == chunks and unparse(x.args[0]) == var for x in body_nodes):
+                ob.violation(fi, rd, "the chunk read is not appended to the chunk list")
+    if not any(any(x is rd for x in body_nodes) for rd in reads):
+        ob.violation(fi, lp, "the accumulate loop contains no low-level read")
     rets = [x for x in repo.own_nodes(fi) if isinstance(x, ast.Return)]
-    if len(rets) != 1 or unparse(rets[0].value) != buf or any(r in list(ast.walk(lp)) for r in rets):
-        ob.violation(fi, rets[0] if rets else fi.node, "the read does not return exactly the accumulated buffer after the loop")
-    for s in lp.body:
-        for x in ast.walk(s):
-            if isinstance(x, (ast.Break, ast.Return)):
-                ob.violation(fi, x, "the accumulate loop can be left before n bytes arrived")
+    want = buf if buf is not None else None
+    if len(rets) != 1 or any(r in body_nodes for r in rets):
+        ob.violation(fi, rets[0] if rets else fi.node, "the read does not return exactly once, after the loop")
+    elif buf is not None and unparse(rets[0].value) != buf:
+        ob.violation(fi, rets[0], "the read does not return the accumulated buffer")
+    elif chunks is not None and unparse(rets[0].value).replace('"', "'") not in (f"b''.join({chunks})", f"bytes().join({chunks})"):
+        ob.violation(fi, rets[0], "the read does not return the chunks joined in arrival order")
+    for x in body_nodes:
+        if isinstance(x, (ast.Break, ast.Return)):
+            ob.violation(fi, x, "the accumulate loop can be left before n bytes arrived")
 
 
 def check(ctx: Ctx) -> None:
